@@ -5,13 +5,7 @@ import os
 
 HERE = os.path.dirname(os.path.dirname(os.path.abspath(__file__)))
 
-CLAIMED = {
-    # id: (technique, level text, level note, design ref)
-    'C14': ('Coq theorems over all histories/worlds of an executable model of StateMachine.cycle + vm_compute correspondence with the real StateMachine + generated facts',
-            'Machine-checked proof (Coq 8.16) about a hand-written executable model of frappy/lib/statemachine.py: bounded calls per cycle, exact init flag, at-most/exactly-once cleanup, uninterrupted cleanup sequence, last request wins, for every behaviour program, every history and every environment interference at hook points; the model is tied to /repo on every run by AST-extracted constants/lock facts and by differential execution of model (vm_compute) and real StateMachine on generated histories.',
-            'Trusted: Coq kernel+VM, translator/facts_C14.py, harness/props/C14.py; interference of a second thread only at hook points; states.py status layer checked by differential oracle only (partial).',
-            'DESIGN.md section 7 C14'),
-}
+CLAIMED = {k: tuple(v) for k, v in json.load(open(os.path.join(HERE, 'tools', 'claimed.json'))).items()}
 
 NOT_YET = {}
 
